@@ -261,6 +261,17 @@ type view struct {
 
 func (v *view) exec(s *stmt) res {
 	if v.ro && s.K.isDML() {
+		// a read-only transaction refuses a write when one is attempted: an UPDATE / DELETE matching nothing passes
+		switch s.K {
+		case kUpdA, kDelA:
+			if len(v.st.idsA(s.Lo, s.Hi)) == 0 {
+				return res{}
+			}
+		case kDelB:
+			if !v.st.B[s.Tag] {
+				return res{}
+			}
+		}
 		return res{Err: true}
 	}
 	switch s.K {
